@@ -82,6 +82,8 @@ pub struct Knobs {
     /// Rewards profile: tiny liquidity + huge emissions + year-long clock jumps, so that reward
     /// growth accumulators reach the top bits / wrap by legitimate accrual
     pub extreme_rewards: bool,
+    /// one LP keeps filling every slot of one tick array (container-full boundary)
+    pub saturate_array: bool,
     /// only the v2 instructions (needed for Token-2022 mints)
     pub v2_only: bool,
     /// percentage of Token-2022 mints that carry a transfer hook
@@ -277,6 +279,7 @@ pub fn make_knobs(profile: Profile, rng: &mut Rng, thorough: bool) -> Knobs {
         extreme_rewards: false,
         v2_only: false,
         hook_pct: 0,
+        saturate_array: false,
         has_rewards: profile == Profile::Rewards || profile == Profile::Byz || profile == Profile::Lifecycle,
         has_admin: profile == Profile::Admin || profile == Profile::Byz,
         lifecycle_pct: match profile {
@@ -287,6 +290,9 @@ pub fn make_knobs(profile: Profile, rng: &mut Rng, thorough: bool) -> Knobs {
     };
     if let Some(kd) = FORCE_ARRAY_KIND.with(|c| c.get()) {
         k.array_kind = kd;
+    }
+    if matches!(profile, Profile::Core | Profile::Rewards | Profile::Lifecycle | Profile::TwoHop) {
+        k.saturate_array = rng.chance(1, 8);
     }
     match profile {
         Profile::Rewards => {
@@ -967,7 +973,9 @@ impl Gen {
         if !flow.is_empty() {
             self.send_flow(id, flow);
         }
+        let saturating = self.knobs.saturate_array && actor.role == Role::Lp && self.w.actors.iter().find(|a| a.role == Role::Lp).map(|a| a.id == actor.id).unwrap_or(false);
         let next = match actor.role {
+            Role::Lp if saturating => 300 + self.rng.below(1_500),
             Role::Lp => 1_000 + self.rng.below(20_000),
             Role::Trader => 300 + self.rng.below(6_000),
             Role::Router => 1_000 + self.rng.below(10_000),
@@ -1197,10 +1205,69 @@ fn tx1(ix: Ix) -> Tx {
 // actors
 // ---------------------------------------------------------------------------------------------
 
+/// One step of the saturating LP: open small positions on still-uninitialized ticks of one array above the price
+/// until all 88 slots of that array are initialized (several positions per transaction).
+fn saturate_step(w: &World, knobs: &Knobs, actor: &Actor, rng: &mut Rng, l: &Ledger) -> Option<Vec<(Tx, String)>> {
+    let pi = w.pools.iter().find(|p| !full_range_only(p.keys.tick_spacing))?;
+    let pool = l.data(&pi.keys.whirlpool).and_then(decode::pool)?;
+    let sp = pi.keys.tick_spacing;
+    let spi = sp as i32;
+    // the target array is fixed per world: one array above the one holding the genesis price is not knowable later,
+    // so take the first array above the current one that already has the most initialized ticks (ties: the nearest)
+    let base = ta_start(pool.tick_current_index, sp);
+    let n = 88 * spi;
+    let mut best: Option<(i32, usize)> = None;
+    for o in 1..=3 {
+        let s0 = base + o * n;
+        if s0 + n > max_usable(sp) {
+            break;
+        }
+        let cnt = l.data(&ix::pda_tick_array(&pi.keys.whirlpool, s0)).and_then(|d| decode::tick_array(d).ok()).map(|t| t.ticks.iter().filter(|x| x.initialized).count()).unwrap_or(0);
+        if best.map(|(_, c)| cnt > c).unwrap_or(true) {
+            best = Some((s0, cnt));
+        }
+    }
+    let (start, cnt) = best?;
+    if cnt >= 88 {
+        return None;
+    }
+    let key = ix::pda_tick_array(&pi.keys.whirlpool, start);
+    let init: Vec<bool> = l.data(&key).and_then(|d| decode::tick_array(d).ok()).map(|t| t.ticks.iter().map(|x| x.initialized).collect()).unwrap_or_else(|| vec![false; 88]);
+    let free: Vec<i32> = (0..88).filter(|i| !init[*i as usize]).collect();
+    let mut ixs: Vec<Ix> = Vec::new();
+    if !l.exists(&key) {
+        ixs.push(init_array_ix(knobs, rng, &pi.keys.whirlpool, &actor.wallet, start));
+    }
+    let mut pairs: Vec<(i32, i32)> = free.chunks(2).filter(|c| c.len() == 2).map(|c| (c[0], c[1])).collect();
+    if free.len() % 2 == 1 {
+        let last = *free.last().unwrap();
+        pairs.push(if last > 0 { (last - 1, last) } else { (last, last + 1) });
+    }
+    // the last free slot in the middle of the array and the very last slot are the interesting ones: random order
+    rng.shuffle(&mut pairs);
+    for (a, b) in pairs.into_iter().take(8) {
+        let (lo, hi) = (start + a * spi, start + b * spi);
+        let mint = new_key(rng);
+        let (open_ix, pk) = ix::open_position(&pi.keys.whirlpool, &actor.wallet, &actor.wallet, &mint, lo, hi);
+        let fake = decode::Position { lower: lo, upper: hi, ..Default::default() };
+        let la = liq_accounts(actor, &pi.keys, &pk, &fake);
+        ixs.push(open_ix);
+        let liq = 1 + rng.below(1000) as u128;
+        ixs.push(if rng.chance(1, 2) && !V2_ONLY.with(|c| c.get()) { ix::increase_liquidity(&la, liq, u64::MAX, u64::MAX) } else { ix::increase_liquidity_v2(&la, liq, u64::MAX, u64::MAX) });
+    }
+    Some(vec![(Tx { ixs }, "saturate_tick_array".to_string())])
+}
+
 fn plan_lp(w: &World, knobs: &Knobs, actor: &mut Actor, l: &Ledger) -> Vec<(Tx, String)> {
     let mine = my_positions(l, &actor.wallet);
     let rng = &mut actor.rng.clone();
     let mut flow: Vec<(Tx, String)> = Vec::new();
+    if knobs.saturate_array && w.actors.iter().find(|a| a.role == Role::Lp).map(|a| a.id == actor.id).unwrap_or(false) && rng.chance(3, 4) {
+        if let Some(f) = saturate_step(w, knobs, actor, rng, l) {
+            actor.rng = rng.clone();
+            return f;
+        }
+    }
     // someone else's position delegated to this wallet: act on it with this wallet's own token accounts
     let delegated = delegated_positions(l, &actor.wallet);
     if !delegated.is_empty() && rng.chance(1, 3) {
